@@ -99,7 +99,26 @@ fn cond_shape(s: &Value, selftest: bool) -> Vec<Value> {
         Err(p) => return skip(format!("conditional circuit build panic: {}", p.chars().take(140).collect::<String>())),
     };
     let constants = oracle::constants_by_row(&outer.prover_only, &outer.common);
-    out.push(json!({"id": id, "shape": {"inner_degree_bits": common.degree_bits(), "outer_degree_bits": outer.common.degree_bits(),
+    // observation (not part of the property): does `conditionally_verify_proof_or_dummy` build for this inner shape?
+    // (it allocates the dummy verifier-data target with the OUTER configuration's cap height)
+    let or_dummy = if s["probe_or_dummy"].as_bool().unwrap_or(false) {
+        let r = guarded(|| {
+            let mut bld = CircuitBuilder::<F, D>::new(CircuitConfig::standard_recursion_config());
+            let c = bld.add_virtual_bool_target_safe();
+            let pt = bld.add_virtual_proof_with_pis(&common);
+            let vd = bld.add_virtual_verifier_data(common.config.fri_config.cap_height);
+            bld.conditionally_verify_proof_or_dummy::<C>(c, &pt, &vd, &common).map_err(|e| format!("{e:#}"))?;
+            Ok::<usize, String>(bld.build::<C>().common.degree_bits())
+        });
+        match r {
+            Ok(Ok(d)) => json!({"built": true, "degree_bits": d}),
+            Ok(Err(e)) => json!({"built": false, "err": e}),
+            Err(p) => json!({"built": false, "panic": p.chars().take(200).collect::<String>()}),
+        }
+    } else {
+        Value::Null
+    };
+    out.push(json!({"id": id, "or_dummy": or_dummy, "inner_cap_height": common.config.fri_config.cap_height, "shape": {"inner_degree_bits": common.degree_bits(), "outer_degree_bits": outer.common.degree_bits(),
         "build_ms": t0.elapsed().as_millis() as u64, "dummy_circuit": dummy.is_ok(), "dummy_panic": dummy.as_ref().err(),
         "binding_bits": cfg.binding_bits(), "inner_pis": common.num_public_inputs, "layers": common.fri_params.reduction_arity_bits}}));
     let bad_class = ["", "wires_cap", "final_poly", "init_leaf:1"];
